@@ -118,7 +118,7 @@ class NodeLib(LibBase):
                       "total_time_atleast_one_processing": ("num", "real"), "total_time_idle": ("num", "real"),
                       "total_time_setup": ("num", "real")})
         if cls == "Splitter":
-            f.update({"pallet_in_process": ("opt", IT), "mode": ("str",)})
+            f.update({"pallet_in_process": ("opt", IT), "mode": ("str",), "__pallet_items": ("list", IT)})
         if cls == "Combiner":
             f.update({"pallet_in_process": ("opt", IT), "target_quantity_of_each_item": ("list", ("num", "int"))})
         if cls == "Source":
